@@ -332,3 +332,50 @@ for es, P, PT in ((2, "pxe2", "PxE2"), (1, "pxe1", "PxE1")):
                 reg("C14", H("c14_%s_to_%s_%d_%d" % (P, dst, M, N), "c14::%s::to_generic" % P, gen="%d, %d, %d" % (M, N, K), unwind=34, timeout=300,
                              tier="quick" if M in C14_PAIR_QUICK and N in C14_PAIR_QUICK else "thorough",
                              funcs=["%s<%d> -> %s<%d>" % (PT, M, dst.replace("pxe", "PxE"), N)], space_bits=M, bound="every %d-bit source pattern" % M))
+
+# ------------------------------------------------------------------ C16
+# own harnesses: functions no other property's harness calls
+for t, T, n, uw in TYPES:
+    stub = DIV32 if t != "p32" else LLDIV
+    reg("C16",
+        H("c16_%s_int_casts" % t, "c16::%s::int_casts" % t, unwind=uw, funcs=["%s::to_{i8,i16,i32,i64,isize,u8,u16,u32,u64,usize}, From<%s> for the integer types" % (T, T)], space_bits=n, bound="every bit pattern, NaR included"),
+        H("c16_%s_div_family" % t, "c16::%s::div_family" % t, unwind=uw + 8, timeout=900, stubs=[stub], funcs=["%s::recip" % T, "%s::rem" % T, "%s::div_euclid" % T, "%s::rem_euclid" % T], space_bits=2 * n + 2,
+          bound="every operand pair; integer division kernel replaced by its contract stub"),
+        H("c16_%s_div_unstubbed" % t, "c16::%s::div_unstubbed" % t, unwind=uw, timeout=1200, tier="quick" if t != "p32" else "thorough", funcs=["%s::div" % T, "softposit::%s" % ("lldiv" if t == "p32" else "div")], space_bits=2 * n,
+          bound="every operand pair, real division kernel, nothing asserted about the value"),
+        H("c16_%s_debug_fmt" % t, "c16::%s::debug_fmt" % t, unwind=24, timeout=600, funcs=["Debug for %s" % T], space_bits=n, bound="every bit pattern"),
+        )
+    if t != "p8":
+        reg("C16", H("c16_%s_scale_ops" % t, "c16::%s::scale_ops" % t, unwind=uw, timeout=900, funcs=["%s::to_degrees" % T, "%s::to_radians" % T], space_bits=n, bound="every bit pattern"))
+# every other property's harness also discharges Kani's built-in checks on the functions it calls; under
+# C16 they are re-run with reference mismatches IGNORED (a wrong value is not a totality question)
+C16_IGNORE_MISMATCH = True
+C16_BORROW_QUICK = ["C02", "C03", "C07", "C08", "C09", "C10", "C12", "C19"]
+for _p in C16_BORROW_QUICK:
+    for h in PLAN[_p]:
+        if h.tier == "quick" and h.timeout <= 300:
+            reg("C16", h)
+for h in PLAN["C01"] + PLAN["C05"] + PLAN["C06"] + PLAN["C04"]:
+    if h.name.startswith(("c01_p8", "c01_p16", "c05_p8", "c05_p16", "c06_p8", "c06_p16", "c04_q8", "c04_q16", "c01_p32_div", "c01_p32_mul", "c04_q32_to_posit", "c06_p32_sqrt_f4", "c05_p32_special")) and "bounded" not in h.name and "spell" not in h.name:
+        reg("C16", h)
+for h in PLAN["C13"] + PLAN["C14"]:
+    if h.tier == "quick" and any(h.name.endswith("_%d" % k) for k in (2, 3, 5, 8, 16)):
+        reg("C16", h)
+for h in PLAN["C11"] if "C11" in PLAN else []:
+    pass
+
+
+# ------------------------------------------------------------------ C11
+C11_FULL_QUICK = {"exp", "ln", "sin_pi", "atan_pi"}
+for fi, f in enumerate(["exp", "exp2", "ln", "log2", "sin_pi", "cos_pi", "tan_pi", "asin_pi", "acos_pi", "atan_pi"]):
+    for k in range(16):
+        reg("C11", H("c11_p16_%s_s%x" % (f, k), "c11::%s" % f, gen=str(k), unwind=40, timeout=900, tier="quick" if f in C11_FULL_QUICK else "thorough", rot=None if f in C11_FULL_QUICK else (k + fi, 4),
+                     funcs=["P16E1::%s" % f], space_bits=12, slice_of="P16E1::%s over all 65536 inputs" % f,
+                     bound="every P16E1 input whose top 4 bits are %#x, against the correctly rounded table (oracle/gen_tables.py)" % k))
+reg("C11",
+    H("c11_p8_exp", "c11::exp8", unwind=40, timeout=600, funcs=["P8E0::exp"], space_bits=8, bound="every P8E0 input, against the correctly rounded table"),
+    H("c11_p8_ln", "c11::ln8", unwind=40, timeout=600, funcs=["P8E0::ln"], space_bits=8, bound="every P8E0 input, against the correctly rounded table"),
+    )
+for h in PLAN["C11"]:
+    if h.name.endswith(("_s0", "_s3", "_s8", "_sc")) or h.name.startswith("c11_p8"):
+        reg("C16", h)
